@@ -251,6 +251,7 @@ type c18Ctl struct {
 	gates   map[string]chan struct{}
 	arrived chan chan struct{} // a goroutine reached the ":read" point and parks on the sent channel
 	written chan struct{}      // a goroutine reached the ":written" point
+	done    chan struct{}      // the event's action has returned
 	timeout bool
 }
 
@@ -259,16 +260,30 @@ const c18Long = 20 * time.Second
 
 // run drives the two failure threads (index 0 = peer names[0], 1 = names[1]) according to word.
 func (ctl *c18Ctl) run(names []string, word string) {
-	// wait until both sends are inside the mock
+	// wait until the sends are inside the mock: the first may take long (the event has to reach
+	// forward first), the others are started in the same loop
+	present := map[string]bool{}
 	for i := 0; i < len(names); i++ {
+		wait := c18Long
+		if i > 0 {
+			wait = time.Second
+		}
 		select {
-		case <-ctl.inGate:
-		case <-time.After(c18Long):
+		case n := <-ctl.inGate:
+			present[n] = true
+		case <-ctl.done: // forward is over: nobody else will come
+		case <-time.After(wait):
 			ctl.timeout = true
 		}
 	}
 	state := make([]int, len(names)) // 0 in gate, 1 released but not parked, 2 parked, 4 done
 	park := make([]chan struct{}, len(names))
+	for t, n := range names {
+		if !present[n] {
+			state[t] = 4 // the node did not send to this peer at all
+			close(ctl.gates[n])
+		}
+	}
 	waitWritten := func() {
 		select {
 		case <-ctl.written:
@@ -446,6 +461,7 @@ func c18Run(w *c18World, h c18Hist) string {
 		var res string
 		if ctl != nil {
 			done := make(chan struct{})
+			ctl.done = done
 			go func() { res = action(); close(done) }()
 			ctl.run(ctlNames, e.sched)
 			select {
